@@ -4,7 +4,11 @@ package main
 
 import (
 	"fmt"
+	"os"
+	"strings"
 )
+
+var raceDebug = os.Getenv("GOSMT_RACEDBG") != ""
 
 type vclock map[int]int
 
@@ -111,6 +115,12 @@ func (r *raceState) access(t *thread, loc interface{}, write bool, atomic bool) 
 		r.cells[loc] = cs
 	}
 	here := r.where(t) + " in " + r.m.curFuncName(t)
+	if raceDebug {
+		fn := r.m.curFuncName(t)
+		if strings.HasPrefix(fn, "pentry") || strings.HasPrefix(fn, "setShardWithoutLock") {
+			fmt.Fprintf(os.Stderr, "RACEDBG %s write=%v loc=%p vc=%v reads=%v w=(%d,%d,%v)\n", here, write, loc, vc, cs.reads, cs.wT, cs.wC, cs.hasWrite)
+		}
+	}
 	if atomic {
 		if cs.syncVC != nil {
 			vc.join(cs.syncVC)
@@ -136,7 +146,10 @@ func (r *raceState) access(t *thread, loc interface{}, write bool, atomic bool) 
 		cs.rAtomic[t.id] = atomic
 		cs.rWhere[t.id] = here
 	}
-	if atomic {
+	if atomic && write {
+		// only an atomic operation with an effect (store, swap, add, successful or attempted CAS) can be
+		// observed by a later atomic operation and so be synchronised before it; an atomic load acquires
+		// (above) but publishes nothing
 		if cs.syncVC == nil {
 			cs.syncVC = vclock{}
 		}
